@@ -332,7 +332,27 @@ let () =
            | _ :: r :: _ when String.length impl > 3 && String.sub impl 0 3 = "ok " -> r
            | r :: _ -> r | [] -> "?") in
        let rec_ok = (impl = "panic") || (impl_rec = string_of_bool recognised) in
-       let prop = (if impl = "panic" then Some false
+       (* an independent reading of the layout in exact arithmetic: whatever the bytes are, an answer is either an error or the exact slice
+          the header and the table entry describe (offsets relative to the end of the table), never bytes from elsewhere *)
+       let arr = Array.of_list ints in let len = Array.length arr in
+       let u32 at = if at + 4 <= len then Some (arr.(at) lor (arr.(at+1) lsl 8) lor (arr.(at+2) lsl 16) lor (arr.(at+3) lsl 24)) else None in
+       let slice st n = if st >= len || n > len - st then None else Some (String.concat "" (List.init n (fun k -> Printf.sprintf "%02x" arr.(st + k)))) in
+       let exact_ok = (match String.split_on_char ' ' impl with
+         | ["ok"; cnt; startup; mods; _; _] | ["ok"; cnt; startup; mods; _] ->
+           (match u32 4, u32 8 with
+            | Some c, Some ss ->
+              let soff = 12 + 8 * c in
+              let st_ok = (match slice soff ss with Some x -> startup = x | None -> startup = "err") in
+              let mods_ok = List.for_all (fun x -> x) (List.mapi (fun i got ->
+                  if i >= c then got = "err" else
+                  (match u32 (12 + 8 * i), u32 (12 + 8 * i + 4) with
+                   | Some off, Some l -> if off = 0 && l = 0 then got = "none" else if l = 0 then got = "err"
+                                         else (match slice (soff + off) (l - 1) with Some x -> got = "=" ^ x | None -> got = "err")
+                   | _ -> got = "err")) (split_list mods)) in
+              cnt = string_of_int c && st_ok && mods_ok
+            | _ -> false)
+         | _ -> true) in
+       let prop = (if impl = "panic" || not exact_ok then Some false
          else if corrupted = "1" then Some rec_ok
          else (match String.split_on_char ':' abstr with
            | [count; startup; mods] ->
@@ -543,6 +563,24 @@ let () =
             | Some (_, Some (names, es, "s")) -> if Z.eqb t.t_sl u32max then got = "-" else got = opt_hex' (spec_scope es names t.t_sl t.t_sc)
             | Some (_, Some (_, _, "g")) -> got = "-"
             | Some _ -> true)) toks (if List.length impl_tok = List.length toks then impl_tok else List.map (fun _ -> "panic") toks)) in
+       (* bytecode offsets on line 0: the token found is the closest preceding one on line 0 (first among equals); its original column is advanced
+          inside a range token; then the scope of that position, read from the abstract entries *)
+       let off_ok = (match String.split_on_char '~' impl with
+         | _ :: offs_s :: _ when String.length impl > 3 ->
+           (try List.for_all2 (fun o got ->
+              if got = "panic" then false else
+              (match spec_lookup toks Z0 o with
+               | None -> got = "-"
+               | Some (_, t) ->
+                 if Z.eqb t.t_src u32max then got = "-" else
+                 let sc = (if t.t_range && Z.eqb t.t_dl Z0 then (let x = Z.add t.t_sc (Z.add o (Z.opp t.t_dc)) in if Z.ltb u32max x then u32max else x) else t.t_sc) in
+                 (match List.nth_opt fbs (int_of_z t.t_src) with
+                  | None | Some (_, None) -> got = "-"
+                  | Some (_, Some (names, es, "s")) -> if Z.eqb t.t_sl u32max then got = "-" else got = opt_hex' (spec_scope es names t.t_sl sc)
+                  | Some (_, Some (_, _, "g")) -> got = "-"
+                  | Some _ -> true))) offs (split_list offs_s) with _ -> false)
+         | _ -> true) in
+       let prop = (match prop with Some true when not off_ok -> Some false | p -> p) in
        let prop = (match prop, String.split_on_char '~' impl with
          | Some true, [before; _; aft; reser] when List.length fbs = List.length m.sm_sources ->
            (* C09 (Hermes): one function map per source -> the scopes are unchanged by rewrite; C14: and by write + read *)
